@@ -207,7 +207,12 @@ func draw(rt *rapid.T) descriptor {
 				var evs []drive.Stim
 				add := func(x model.Ev) { y := x; evs = append(evs, drive.Stim{Kind: "event", Ev: &y}) }
 				first := rapid.Bool().Draw(rt, "order")
-				if first {
+				if rapid.IntRange(0, 2).Draw(rt, "completingPairConcurrent") == 0 {
+					// the two completing events come from two goroutines at the same
+					// time: whatever their order, together they complete the listener
+					x, y := e, e2
+					d.Script = append(d.Script, drive.Stim{Kind: "burst", Burst: []drive.Stim{{Kind: "event", Ev: &x}, {Kind: "event", Ev: &y}}})
+				} else if first {
 					add(e)
 					add(e2)
 				} else {
@@ -224,7 +229,9 @@ func draw(rt *rapid.T) descriptor {
 						add(model.Ev{Kind: "signal", Ref: "zz"})
 					}
 				}
-				d.Script = append(d.Script, drive.Stim{Kind: "rapid", Burst: evs})
+				if len(evs) > 0 {
+					d.Script = append(d.Script, drive.Stim{Kind: "rapid", Burst: evs})
+				}
 				if rapid.Bool().Draw(rt, "answerAfter") {
 					d.Script = append(d.Script, drive.Stim{Kind: "answer", Pick: rapid.IntRange(0, 3).Draw(rt, "pick")})
 				}
